@@ -22,26 +22,28 @@ type Clause struct {
 }
 
 type Contract struct {
-	Key        string
-	File       string
-	Line       int
-	Requires   []*Clause
-	Ensures    []*Clause
-	PanicsIf   []*Clause
-	Assigns    []*Clause
-	HasAssigns bool
-	AssignsAny bool
-	Loops      map[int][]*Clause
-	Unroll     map[int]int
-	Assumed    bool // contract is trusted, body not verified
-	AssumedWhy string
-	Mode       string
-	NoAuto     bool // no automatic candidate invariants
-	Wraps      bool // discarded carries are intended (arithmetic modulo 2^k)
-	Fresh      []*Clause
-	CallSites  []*CallSite
-	Nullable   map[string]bool
-	used       bool
+	Key          string
+	File         string
+	Line         int
+	Requires     []*Clause
+	Ensures      []*Clause
+	PanicsIf     []*Clause
+	Assigns      []*Clause
+	HasAssigns   bool
+	AssignsAny   bool
+	Loops        map[int][]*Clause
+	Unroll       map[int]int
+	Assumed      bool // contract is trusted, body not verified
+	AssumedWhy   string
+	Mode         string
+	NoAuto       bool // no automatic candidate invariants
+	Wraps        bool // discarded carries are intended (arithmetic modulo 2^k)
+	Fresh        []*Clause
+	CallSites    []*CallSite
+	Nullable     map[string]bool
+	InstGoalOnly bool
+	Cuts         []*CutSpec
+	used         bool
 }
 
 // clauseMode: the VC mode a clause is written for.
@@ -82,6 +84,11 @@ func (c *Contract) modes() []string {
 	return out
 }
 
+type CutSpec struct {
+	Name string
+	K    int
+}
+
 type CallSite struct {
 	Name string
 	K    int
@@ -107,7 +114,7 @@ type Lemma struct {
 }
 
 var clauseKW = map[string]bool{"func": true, "pure": true, "requires": true, "ensures": true, "assigns": true,
-	"panics-if": true, "loop": true, "callsite": true, "assumed": true, "mode": true, "lemma": true, "noauto": true, "wraps": true, "nullable": true, "instantiate": true, "uf": true, "axiom": true}
+	"panics-if": true, "loop": true, "callsite": true, "assumed": true, "mode": true, "lemma": true, "noauto": true, "wraps": true, "nullable": true, "instantiate": true, "inst": true, "cut": true, "uf": true, "axiom": true}
 
 var labelRe = regexp.MustCompile(`^(requires|ensures|panics-if|callsite|pure)\[([A-Za-z0-9_.:-]+)\]`)
 
@@ -338,6 +345,17 @@ func (e *Engine) loadContractFile(path string, pkg *ssa.Package) error {
 				cur.NoAuto = true
 			case "wraps":
 				cur.Wraps = true
+			case "inst":
+				if strings.TrimSpace(rc.text) == "goal-only" {
+					cur.InstGoalOnly = true
+				}
+			case "cut":
+				m := regexp.MustCompile(`^([A-Za-z_][A-Za-z0-9_.]*)#([0-9]+)$`).FindStringSubmatch(strings.TrimSpace(rc.text))
+				if m == nil {
+					return fmt.Errorf("%s:%d: bad cut clause (want 'cut Name#K')", path, rc.line)
+				}
+				k, _ := strconv.Atoi(m[2])
+				cur.Cuts = append(cur.Cuts, &CutSpec{m[1], k})
 			case "nullable":
 				if cur.Nullable == nil {
 					cur.Nullable = map[string]bool{}
